@@ -246,6 +246,24 @@ def _up_conn(h, handler):
     return None
 
 
+ONCD = []          # every plugin.on_client_data(raw) call made by a handler: bytes(raw), in order
+
+def install_oncd_log():
+    """class-level wrappers (the plugin instance is created inside handle_data, so it cannot be wrapped per instance)"""
+    from proxy.http.proxy import HttpProxyPlugin
+    from proxy.http.server import HttpWebServerPlugin
+    for klass in (HttpProxyPlugin, HttpWebServerPlugin):
+        if getattr(klass.on_client_data, '_verif_logged', False):
+            continue
+        def make(orig):
+            def on_client_data(self, raw):
+                ONCD.append(bytes(raw))
+                return orig(self, raw)
+            on_client_data._verif_logged = True
+            return on_client_data
+        klass.on_client_data = make(klass.on_client_data)
+
+
 def run_sync(coro):
     """drive a coroutine that never really suspends (the handler's async methods do no awaiting I/O)"""
     try:
@@ -265,6 +283,7 @@ class RelayDriver:
     def __init__(self, case, external_shutdown=False):
         from proxy.http.parser import httpParserStates
         self.COMPLETE = httpParserStates.COMPLETE
+        install_oncd_log()
         self.case = case
         self.handler = handler = case.get('handler', 'http')
         self.threaded = bool(case.get('threaded'))
@@ -313,12 +332,13 @@ class RelayDriver:
         drv = self
         def handle_data(data):
             u = _up_conn(h, handler)
-            rec.update(called=True, data=bytes(data), cq0=len(cq), up_before=u is not None,
+            rec.update(called=True, data=bytes(data), cq0=len(cq), up_before=u is not None, oncd0=len(ONCD),
                        ub0=len(u.buffer) if u is not None else 0,
                        complete_before=(h.request.state == drv.COMPLETE))
             def snap():
                 u1 = _up_conn(h, handler)
                 rec['newc'] = cq[rec['cq0']:]
+                rec['handed'] = ONCD[rec['oncd0']:]
                 rec['newu'] = ([bytes(b) for b in u1.buffer[rec['ub0']:]] if rec['up_before'] else
                                [bytes(b) for b in u1.buffer]) if u1 is not None else []
             try:
@@ -403,23 +423,42 @@ class RelayDriver:
                     if 'exc' in rec:
                         orc['req'] = 'raise'
                     elif u is not None:
-                        orc['req'] = ['proxy', True, b'']
+                        orc['req'] = ['proxy', True, b'', b'']
                     elif rec.get('ret') is True:
                         orc['req'] = ['error', newc]
                     elif newc:
-                        orc['req'] = ['serve', newc]
+                        orc['req'] = ['serve', newc, b'']
             elif not rec['complete_before']:
                 is_proxy = h.plugin is not None and type(h.plugin).__name__ == 'HttpProxyPlugin'
-                if 'exc' in rec:
+                handed = rec.get('handed', [])          # e222aa4: request.buffer handed to plugin.on_client_data in this call
+                rem = handed[0] if handed else b''
+                def rem_cdata(tunnel):
+                    if not handed:
+                        return 'nothing'
+                    if 'exc' in rec:
+                        return 'raise'
+                    if rec.get('ret') is True:
+                        return ['proto', []]
+                    if is_proxy and not tunnel and len(newu) > 1:
+                        pr = getattr(h.plugin, 'pipeline_request', None)
+                        return ['forward', list(newu[1:]), bool(pr is not None and pr.is_complete and pr.is_connection_upgrade)]
+                    return 'nothing'
+                if 'exc' in rec and not handed:
                     orc['req'] = 'raise'
-                elif is_proxy and u is not None and rec.get('ret') is not True:
-                    orc['req'] = ['proxy', bool(h.request.is_https_tunnel), b''.join(newu)]
+                elif is_proxy and u is not None and (rec.get('ret') is not True or handed):
+                    tunnel = bool(h.request.is_https_tunnel)
+                    orc['req'] = ['proxy', tunnel, b'' if tunnel else (newu[0] if newu else b''), rem]
+                    orc['cdata'] = rem_cdata(tunnel)
+                    self.clrcvd += rem
+                elif handed:
+                    orc['req'] = ['serve', newc, rem]
+                    orc['cdata'] = rem_cdata(False)
                 elif rec.get('ret') is True:
                     orc['req'] = ['error', newc]
                 elif h.request.state == self.COMPLETE:
-                    orc['req'] = ['serve', newc]
+                    orc['req'] = ['serve', newc, b'']
                 elif newc:
-                    orc['req'] = ['serve', newc]      # cannot happen; would show up as a mismatch
+                    orc['req'] = ['serve', newc, b'']      # cannot happen; would show up as a mismatch
             else:
                 is_proxy = h.plugin is not None and type(h.plugin).__name__ == 'HttpProxyPlugin'
                 if 'exc' in rec:
@@ -513,9 +552,9 @@ def coq_req(o):
     if o[0] == 'error':
         return '(RError %s)' % coq_blist(o[1])
     if o[0] == 'serve':
-        return '(RServe %s)' % coq_blist(o[1])
+        return '(RServe %s %s)' % (coq_blist(o[1]), C.coq_bytes(o[2]))
     if o[0] == 'proxy':
-        return '(RProxy %s %s)' % (C.coq_bool(o[1]), C.coq_bytes(o[2]))
+        return '(RProxy %s %s %s)' % (C.coq_bool(o[1]), C.coq_bytes(o[2]), C.coq_bytes(o[3]))
     raise ValueError(o)
 
 
@@ -669,7 +708,8 @@ def gen_relay(rng, profile='relay', n_events=None, max_send=None, handler=None):
     else:
         first = rng.choice([b'GET / HTTP/1.1\r\nHost\r\n\r\n', b'\x16\x03\x01\x02\x00\x01\x00\r\n\r\n', b'NOT A REQUEST\r\n\r\n',
                             b'GET http://h.example:99999999999999999999/ HTTP/1.1\r\n\r\n'])
-    client_plan = cut(rng, first, rng.choice([1, 1, 2, 3]))
+    cut_first = cut(rng, first, rng.choice([1, 1, 2, 3]))
+    client_plan = list(cut_first)
     n_events = n_events or rng.choice([12, 20, 30, 40])
     n_client_data = rng.choice([0, 1, 2, 4])
     n_up = rng.choice([1, 3, 6, 10]) if profile != 'timed' else rng.choice([0, 1, 2])
@@ -692,6 +732,25 @@ def gen_relay(rng, profile='relay', n_events=None, max_send=None, handler=None):
             client_plan += cut(rng, web_request(rng, '/http-route-example'), 2)
     else:
         up_plan = []
+    # e222aa4: segment boundaries NOT aligned with the end of the first request: the bytes that follow it
+    # (tunnel payload right behind the CONNECT, a pipelined request) share a segment with its last bytes;
+    # cuts at end-1, end, end+1, end+2 and at random positions.  (The example tunnel class drops such bytes: aligned there.)
+    if handler == 'http' and exchange in ('connect', 'http', 'webroute') and rng.random() < 0.55:
+        L = len(first)
+        follow = [x for x in client_plan[len(cut_first):] if isinstance(x, (bytes, bytearray))]
+        if exchange == 'connect' and (not follow or rng.random() < 0.5):
+            follow = [rng.choice([b'\x16\x03\x01hello', b'\x00', rand_bytes(rng, rng.choice([1, 2, max_send + 1, 9]))])] + follow
+        if follow:
+            stream = first + b''.join(follow)
+            pts = set()
+            pts.add(rng.choice([L - 1, L + 1, L + 1, L + 2, L + len(follow[0]), rng.randrange(1, len(stream))]))
+            for _ in range(rng.choice([0, 1, 2])):
+                pts.add(rng.choice([L - 1, L, L + 1, rng.randrange(1, len(stream))]))
+            pts = sorted(x for x in pts if 0 < x < len(stream))
+            merged = [stream[a:b] for a, b in zip([0] + pts, pts + [len(stream)])]
+            tail = [x for x in client_plan[len(cut_first):] if not isinstance(x, (bytes, bytearray))]
+            client_plan = merged + tail
+            case['unaligned'] = True
     # how the exchange ends
     end = rng.random()
     if profile == 'teardown':
